@@ -198,12 +198,12 @@ def signature(family, p):
 _WORLDS = {}
 
 
-def worlds(kind, jail=False):
+def worlds(kind, jail=False, plain=False):
     from ._c31world import World
-    k = (kind, jail)
+    k = (kind, jail, plain)
     if k not in _WORLDS:
         install_probe_verb()
-        _WORLDS[k] = (World(kind, "A", jail), World(kind, "B", jail))
+        _WORLDS[k] = (World(kind, "A", jail, plain), World(kind, "B", jail, plain))
     return _WORLDS[k]
 
 
@@ -296,6 +296,9 @@ def _work(chunk):
     for part, kind, root, fname, length, first in chunk:
         if part == "jail":
             _jail_item(kind, tally)
+            continue
+        if part == "plainjail":
+            _plain_jail_item(kind, tally, length)
             continue
         wa, wb = worlds(kind)
         form = F[fname]
@@ -390,6 +393,84 @@ def _jail_item(kind, tally):
     acc.sample({"kind": kind, "jail_probe_urls": len(rels) * 4, "opened_inside": opened_inside})
 
 
+# ---- the jail clause with a plain (non-chroot) jail root and name-extending siblings ------------
+PLAIN_TOKENS = ("..", "/", "pub-private", "pub.bak", "-private", ".bak", "%2Dprivate", "in", "secretdir")
+
+
+def _plain_class(rel):
+    if any(x in rel for x in ("-private", ".bak", "%2Dprivate")):
+        return "sibling-name-prefix"
+    return path_class(rel)
+
+
+def _plain_jail_item(kind, tally, maxlen):
+    """ControlDir.open during a request whose jail root is the plain transport of /srv/pub/, at
+    4 bases x words over PLAIN_TOKENS, and BzrDirFormat.initialize_ex_1.16 stacked on such URLs."""
+    from breezy import controldir
+
+    from ._c31world import leaked
+    acc = tally.acc
+    wa, wb = worlds(kind, jail=True, plain=True)
+    fmt = controldir.format_registry.make_controldir("2a")
+    net = fmt.network_name()
+    repo_net = fmt.repository_format.network_name()
+    rels = [""] + [w for L in range(1, maxlen + 1) for w in words(PLAIN_TOKENS, L)]
+    opened_inside = 0
+    for mode in ("open", "stack"):
+        for bi in range(4):
+            for rel in rels:
+                res = []
+                for w in (wa, wb):
+                    served = w.bottom.base                      # .../srv/pub/
+                    bases = (served, served[:-1], w.base_url + "srv/", w.base_url)
+                    url = bases[bi] + rel
+                    if mode == "open":
+                        out = w.request("/", PROBE_VERB, (url.encode("utf-8"),), None)
+                    else:
+                        out = w.request("/", b"BzrDirFormat.initialize_ex_1.16",
+                                        (net, b"a", b"False", b"False", b"False", url.encode("utf-8"), b".",
+                                         repo_net, b"False", b"False"), None)
+                    changed, out_diff, touched = w.settle(True)
+                    res.append((out, out_diff, touched, url))
+                acc.n += 2
+                acc.count("plain-jail-probes")
+                acc.count("nontrivial")
+                (oa, da, ta, url), (ob, db, tb, _) = res
+                effects = []
+                lk = leaked(oa)
+                if lk:
+                    effects.append(("control-dir-outside-opened", {"canaries_in_response": lk}))
+                if (oa[0], oa[1][:3] if mode == "open" else oa[1]) != (ob[0], ob[1][:3] if mode == "open" else ob[1]):
+                    effects.append(("answer-depends-on-outside", {"with_outside_objects": _short(oa),
+                                                                  "without": _short(ob)}))
+                if da or db:
+                    effects.append(("outside-modified", {"diff_world_A": da[:4], "diff_world_B": db[:4]}))
+                if ta or tb:
+                    effects.append(("touched-outside-path", {"world_A": ta[:4], "world_B": tb[:4]}))
+                acc.outcomes.add(("plainjail-" + mode, oa[0], oa[1][:1]))
+                if mode == "open" and oa[0] == "ok":
+                    acc.count("plain-jail-opened")
+                    if oa[1][1:2] == (b"inside-marker",):
+                        opened_inside += 1
+                if effects:
+                    sig = "%s:plain-jail:%s-escapes-jail" % (
+                        "open-controldir" if mode == "open" else "initialize_ex-stacked_on", _plain_class(rel))
+                    for e, d in effects:
+                        ex = {"kind": kind, "base": ("served", "served-without-slash", "parent", "root")[bi],
+                              "url": wa.canon(url.encode()), "relative": rel, "effect": e, "response": _short(oa)}
+                        ex.update(d)
+                        tally.effect(sig, e, (len(rel), rel, bi, kind), ex)
+    if not opened_inside:
+        raise HarnessError("C31: plain-jail probe never opened the inside control directory (vacuous)")
+    acc.count("plain-jail-opened-inside", opened_inside)
+    for w in (wa, wb):
+        d = w.final_check()
+        if d:
+            tally.effect("open-controldir:plain-jail:unattributed-escapes-jail", "outside-modified", (0, "", 0, kind),
+                         {"kind": kind, "diff": d[:6]})
+    acc.sample({"kind": kind, "plain_jail_probe_urls": len(rels) * 8, "opened_inside": opened_inside})
+
+
 # ---- driver ------------------------------------------------------------------------------------
 def plan(ctx):
     F = forms()
@@ -437,10 +518,14 @@ def plan(ctx):
         add(kind, root, fnames, hi, lo)
     for kind in ("vfs", "local"):
         items.append(("jail", kind, "/", None, 0, None))
+        items.append(("plainjail", kind, "/", None, ctx.q(2, 3), None))
     bounds = {"deep_forms": deep, "other_forms": len(wide), "tokens": list(TOKENS), "roots": list(ROOTS),
               "enumerated": [{"transport": k, "root_client_path": r, "forms": lab, "path_tokens": "%d..%d" % (lo, hi)}
                              for k, r, lab, _f, lo, hi in table],
-              "jail_probe": "4 URL bases x words <= 3 over %r, both transports" % (JAIL_TOKENS,)}
+              "jail_probe": "4 URL bases x words <= 3 over %r, both transports" % (JAIL_TOKENS,),
+              "plain_jail_probe": "jail root = plain transport of the served directory, siblings pub-private/ and "
+                                  "pub.bak/: ControlDir.open and initialize_ex_1.16(stacked_on=URL) at 4 bases x "
+                                  "words <= %d over %r, both transports" % (ctx.q(2, 3), PLAIN_TOKENS)}
     return items, bounds
 
 
@@ -455,7 +540,7 @@ def _cpu_seconds():
 
 def _cost(item):
     part, kind, root, fname, L, first = item
-    if part == "jail":
+    if part in ("jail", "plainjail"):
         return 3000
     n = len(TOKENS) ** (L if first is None else L - 1)
     return n * (3 if kind == "local" else 2) * (1 if fname in _VFS else 2)
@@ -507,6 +592,8 @@ def run(ctx):
         "jail_probes": acc.counters.get("jail-probes", 0),
         "jail_probes_opened": acc.counters.get("jail-opened", 0),
         "jail_probes_opened_inside": acc.counters.get("jail-opened-inside", 0),
+        "plain_jail_probes": acc.counters.get("plain-jail-probes", 0),
+        "plain_jail_probes_opened_inside": acc.counters.get("plain-jail-opened-inside", 0),
         "distinct_outcome_classes": len(acc.outcomes),
         "ok_per_form": okc,
         "work_items": len(items),
